@@ -181,6 +181,7 @@ func (r *sessionRegistry) IsDraining() bool {
 func (r *sessionRegistry) SetDraining(v bool) {
 	r.mu.Lock()
 	r.draining = v
+	verifAt("sticky.reg.draining", r, v)
 	r.mu.Unlock()
 }
 
@@ -207,10 +208,12 @@ func (r *sessionRegistry) open(state any, ttl time.Duration, principalKey string
 	}
 	r.mu.Lock()
 	if r.draining {
+		verifAt("sticky.reg.open", r, sid, false)
 		r.mu.Unlock()
 		return zero, time.Time{}, nil, &ServerDrainingError{}
 	}
 	r.entries[sid] = entry
+	verifAt("sticky.reg.open", r, sid, true)
 	r.mu.Unlock()
 	return sid, expiresAt, entry, nil
 }
@@ -224,19 +227,24 @@ func (r *sessionRegistry) get(sid [sessionIDLen]byte, principalKey string) *sess
 	r.mu.Lock()
 	entry, ok := r.entries[sid]
 	if !ok {
+		verifAt("sticky.reg.get", r, sid, "miss")
 		r.mu.Unlock()
 		return nil
 	}
 	if entry.expiresAt.Before(now) {
 		delete(r.entries, sid)
+		verifAt("sticky.reg.get", r, sid, "evict")
 		r.mu.Unlock()
+		verifAt("sticky.get.evicted", r, sid)
 		closeSessionState(entry.state)
 		return nil
 	}
 	if entry.principalKey != principalKey {
+		verifAt("sticky.reg.get", r, sid, "mismatch")
 		r.mu.Unlock()
 		return nil
 	}
+	verifAt("sticky.reg.get", r, sid, "hit")
 	r.mu.Unlock()
 	return entry
 }
@@ -249,10 +257,12 @@ func (r *sessionRegistry) close(sid [sessionIDLen]byte) bool {
 	if ok {
 		delete(r.entries, sid)
 	}
+	verifAt("sticky.reg.close", r, sid, ok)
 	r.mu.Unlock()
 	if !ok {
 		return false
 	}
+	verifAt("sticky.close.removed", r, sid)
 	closeSessionState(entry.state)
 	return true
 }
@@ -267,7 +277,9 @@ func (r *sessionRegistry) drainExpired(now time.Time) int {
 			delete(r.entries, sid)
 		}
 	}
+	verifAt("sticky.reg.reap", r, expired)
 	r.mu.Unlock()
+	verifAt("sticky.reap.removed", r, len(expired))
 	for _, entry := range expired {
 		closeSessionState(entry.state)
 	}
@@ -284,7 +296,9 @@ func (r *sessionRegistry) shutdown() {
 		entries = append(entries, e)
 	}
 	r.entries = make(map[[sessionIDLen]byte]*sessionEntry)
+	verifAt("sticky.reg.shutdown", r, entries)
 	r.mu.Unlock()
+	verifAt("sticky.shutdown.removed", r, len(entries))
 	for _, e := range entries {
 		closeSessionState(e.state)
 	}
